@@ -19,6 +19,8 @@ spec/proc/TcpStop.tla    composition: TCP processor stop with one relayed connec
  4. whole processors through the public API (Redis with simulated cluster nodes, TCP): Stop placed right after
     Start, during bind retry, with active connections, with a request / the slot refresh waiting on a silent or
     closed backend, after StopListen; same predicate plus upstream connections closed;
+ 4b. races that no hook position can place: bursts of simultaneous arrivals against the connection limit, and Drain
+    started at random (spin-aligned, sub-microsecond) offsets against Serve's bind -> publish -> re-check;
  5. code -> spec: free-running (randomly perturbed) listeners record their ordered hook log; TLC validates it
     against ListenerTrace.tla (interval linearisation), telling which variant of the model the code conforms to.
 
@@ -69,7 +71,7 @@ REQUIRED_SCENARIOS = (["redis/%s/%s" % (w, b) for w in ("idle-conns", "request-w
 LISTENER_WINDOWS = ["W_StopBeforeServe", "W_StopBeforeBind", "W_StopDuringRetry", "W_StopBetweenBindAndPublish",
                     "W_StopWithActiveConns", "W_StopWhileAccepting", "W_DrainBeforeBind", "W_DrainDuringRetry",
                     "W_DrainBetweenBindAndPublish", "W_DrainThenStop", "W_DrainWithActiveConns", "W_LimitReached",
-                    "W_AddAfterStop", "W_BacklogAtClose"]
+                    "W_AddAfterStop", "W_BacklogAtClose", "W_DrainDuringBind"]
 
 
 def model_checking(ctx):
@@ -82,15 +84,18 @@ def model_checking(ctx):
     stuck = ["NoStuckStop", "TEMPORAL"]
     jobs.append(("proc", "Listener", "MC_Listener_nodone.cfg", stuck, False, False))
     jobs.append(("proc", "Listener", "MC_Listener_nopublish_stop.cfg", stuck, False, False))
-    jobs.append(("proc", "Listener", "MC_Listener_nopublish_drain.cfg", ["DrainStopsAccepting"], False, False))
+    jobs.append(("proc", "Listener", "MC_Listener_nopublish_drain.cfg", ["DrainStopsAccepting", "DrainClosesSocket"], False, False))
     jobs.append(("proc", "Listener", "MC_Listener_nostats.cfg", ["ConnStatsConserved"], False, False))
     # anti-vacuity mutants of the code as it is: check-then-act addConn, Stop that only copies the registry
     jobs.append(("proc", "Listener", "MC_Listener_nonatomic_add.cfg", ["LimitRespected"], False, False))
     jobs.append(("proc", "Listener", "MC_Listener_copyregistry.cfg", stuck, False, False))
+    # ... Drain that looks for the socket before it raises the drain latch
+    jobs.append(("proc", "Listener", "MC_Listener_drainorder.cfg", ["DrainClosesSocket", "DrainStopsAccepting"], False, False))
     if ctx.thorough:
-        jobs.append(("proc", "Listener", "MC_Listener_pinned.cfg", stuck + ["DrainStopsAccepting", "ConnStatsConserved"], False, False))
+        jobs.append(("proc", "Listener", "MC_Listener_pinned.cfg", stuck + ["DrainStopsAccepting", "DrainClosesSocket", "ConnStatsConserved"], False, False))
     jobs.append(("proc", "RedisStop", "MC_RedisStop_fixed.cfg", None, True, True))
-    jobs.append(("proc", "RedisStop", "MC_RedisStop_pinned_benign.cfg", None, True, False))
+    if ctx.thorough:   # 10^5 states; shows that the waits of the pinned code only hang with a silent backend
+        jobs.append(("proc", "RedisStop", "MC_RedisStop_pinned_benign.cfg", None, True, False))
     jobs.append(("proc", "RedisStop", "MC_RedisStop_nosession.cfg", stuck, False, False))
     jobs.append(("proc", "RedisStop", "MC_RedisStop_norefresh.cfg", stuck, False, False))
     jobs.append(("proc", "RedisStop", "MC_RedisStop_noprocquit.cfg", stuck, False, False))
@@ -102,7 +107,7 @@ def model_checking(ctx):
         sub, mod, cfg, exp, count, cov = j
         return j, ctx.mc(sub, mod, cfg, expect_violated=exp, count=count, workers=2 if exp is None else 1, timeout=600, coverage=cov)
 
-    with cf.ThreadPoolExecutor(max_workers=5) as ex:
+    with cf.ThreadPoolExecutor(max_workers=8) as ex:
         res = list(ex.map(one, jobs))
     for (sub, mod, cfg, exp, count, cov), r in res:
         if cov and r.coverage:
@@ -420,7 +425,10 @@ def run_conformance(ctx, t0, mc_future):
     bf = os.path.join(ctx.work, "burstjobs.ndjson")
     ctx.harness(["c09-burstjobs", "-out", bf])
     burst = kit.read_ndjson(bf)
-    all_jobs = jobs + scen + free + burst
+    rcf = os.path.join(ctx.work, "racejobs.ndjson")
+    ctx.harness(["c09-racejobs", "-out", rcf])
+    race = kit.read_ndjson(rcf)
+    all_jobs = jobs + scen + free + burst + race
     by_id = {j["id"]: j for j in all_jobs}
     results = run_jobs(ctx, all_jobs, "all", workers=12, long_ms=10000, rerun_cap=3 if ctx.thorough else 1,
                        timeout=1500 if ctx.thorough else 240)
@@ -432,12 +440,13 @@ def run_conformance(ctx, t0, mc_future):
     prc = [r for r in results if r["kind"] == "proc"]
     fre = [r for r in results if r["kind"] == "free"]
     bur = [r for r in results if r["kind"] == "burst"]
+    rac = [r for r in results if r["kind"] == "race"]
     ctx.cov["behaviours"] = {"emitted": n_emitted, "distinct": len(uniq), "selected": len(behs),
                              "per_window": {w: sum(1 for b in behs if w in beh_windows(b)) for w in LISTENER_WINDOWS + NOSTOP_WINDOWS}}
     conf = confirmed_signatures(results)
     for att in (2, 1):   # confirmed cases first
         for label, key, lst in (("replay", "replay", rep), ("processor", "scenarios", prc), ("free", "free", fre),
-                                ("burst", "burst", bur)):
+                                ("burst", "burst", bur), ("race", "drain_vs_bind", rac)):
             part = evaluate(ctx, by_id, [r for r in lst if (r.get("attempt", 1) >= 2) == (att == 2)], label, conf)
             tot = ctx.cov.setdefault(key, {})
             for k, v in part.items():
@@ -460,9 +469,11 @@ def run_conformance(ctx, t0, mc_future):
     trace_validation(ctx, by_id, fre)
     kit.log("[c09] trace validation done after %.1fs" % (time.time() - t0))
     ctx.cov["burst"]["rounds"] = sum(r.get("steps", 0) for r in bur)
+    ctx.cov["drain_vs_bind"]["rounds"] = sum(r.get("steps", 0) for r in rac)
     ctx.cov["rule"] = ("cases = (a) distinct TLC-simulated behaviours of ListenerGen (stratified: at least %d per named window) forced on a real "
                        "listener, (b) processor scenarios protocol x placement of Stop x backend behaviour, (c) seeded free-running listener runs, "
-                       "(d) burst runs (8-16 simultaneous dials per round against connection limit 1..3, handler holds the connection); "
+                       "(d) burst runs (8-16 simultaneous dials per round against connection limit 1..3, handler holds the connection), "
+                       "(e) Drain raced against Serve's bind/publish/re-check on fresh listeners (held, coarse and spin-aligned starts); "
                        "distinct by (limit, port busy, action sequence) / scenario name / script; non-trivial = passes through a named window or "
                        "serves a connection (replays), every scenario, free and burst run (they all end in a judged Stop)" % per_window)
     # driver health (infrastructure, never a verdict). A recorded violation of the property predicate stands:
